@@ -83,6 +83,13 @@ fn reference(input: &[u8]) -> V {
                 Some(SocketAddr::from((d, u16::from_be_bytes([a[34], a[35]])))),
             )
         }
+        3 => {
+            // AF_UNIX: two 108-byte paths, no socket addresses
+            if len < 216 {
+                return V::RejectOrIncomplete();
+            }
+            (None, None)
+        }
         _ => return V::Reject,
     };
     V::Ok { consumed: 16 + len, cmd, family, src, dst }
@@ -130,7 +137,7 @@ pub fn run_a(ctx: &Ctx) -> Coverage {
                         continue;
                     }
                     let want = reference(input);
-                    let short_block = cut >= 16 + len as usize && ((family >> 4 == 1 && len < 12) || (family >> 4 == 2 && len < 36));
+                    let short_block = cut >= 16 + len as usize && ((family >> 4 == 1 && len < 12) || (family >> 4 == 2 && len < 36) || (family >> 4 == 3 && len < 216));
                     let case = json!({"part": "a", "family": family, "command": cmd, "declared_len": len, "bytes_available": cut});
                     match guarded(|| implementation(input)) {
                         Err(p) => ctx.violation_w("C18|proxy-parser-panic", format!("parse_v2_header panicked: {p}"), case, len as u64),
@@ -192,17 +199,396 @@ pub fn run_a(ctx: &Ctx) -> Coverage {
         exhaustive: true,
         bound: json!({"families": families.len(), "commands": cmds.len(), "lengths": lens.len()}),
         extra: json!({"parser_outcomes": outcomes}),
-        assumptions: vec!["AF_UNIX headers are rejected by sozu's parser; the reference treats that as the documented behaviour (session closed), not as a violation".into()],
+        assumptions: vec!["a declared address block shorter than its family needs may be refused as an error or as 'incomplete' (an existing unit test pins the latter); the session-level part (b) checks that such a header still ends the session".into()],
         ..Default::default()
     }
 }
 
+// ------------------------------------------------------------------ (b) SIM: TCP relay
+
+use crate::{
+    common::Tier,
+    interpose::VIRTUAL_EPOCH_NS,
+    sim::{
+        ChoiceProfile, End, FdClass,
+        explore::{self, ItemResult, Run},
+        h1, scen,
+        peer::{Peer, Step},
+        worker::{self, MainStep, WorkerSetup},
+    },
+};
+
+#[derive(Clone, Copy, Debug, PartialEq, Eq, serde::Serialize, serde::Deserialize)]
+pub enum Mode {
+    Plain,
+    Send,
+    Expect,
+    Relay,
+}
+
+#[derive(Clone, Copy, Debug, PartialEq, Eq, serde::Serialize, serde::Deserialize)]
+pub enum Ending {
+    /// both sides stay open until everything was received
+    Open,
+    /// the backend closes right after its payload: the client must receive all of it, then end-of-stream
+    BackendClose,
+    /// the client closes right after its payload (expects nothing back): the backend must receive all of it, then end-of-stream
+    ClientClose,
+    /// the client half-closes right after its payload and waits for the answer
+    ClientHalfClose,
+}
+
+#[derive(Clone, Debug, serde::Serialize, serde::Deserialize)]
+pub struct TcpCase {
+    pub mode: Mode,
+    pub up: usize,
+    pub down: usize,
+    /// incoming PROXY header variant (expect / relay modes)
+    pub header: String,
+    /// header and first payload bytes in one segment
+    pub coalesced: bool,
+    /// how the exchange ends
+    pub end: Ending,
+    pub buffer_size: u64,
+}
+
+fn incoming_header(kind: &str) -> (Vec<u8>, bool) {
+    // returns (bytes, well_formed)
+    let mut h = SIG.to_vec();
+    match kind {
+        "v4" => {
+            h.extend_from_slice(&[0x21, 0x11, 0, 12, 10, 1, 2, 3, 10, 4, 5, 6, 0x1f, 0x90, 0x01, 0xbb]);
+            (h, true)
+        }
+        "v6" => {
+            h.extend_from_slice(&[0x21, 0x21, 0, 36]);
+            h.extend_from_slice(&[0x20, 1, 0xd, 0xb8, 0, 0, 0, 0, 0, 0, 0, 0, 0, 0, 0, 1]);
+            h.extend_from_slice(&[0x20, 1, 0xd, 0xb8, 0, 0, 0, 0, 0, 0, 0, 0, 0, 0, 0, 2]);
+            h.extend_from_slice(&[0x1f, 0x90, 0x01, 0xbb]);
+            (h, true)
+        }
+        "local" => {
+            h.extend_from_slice(&[0x20, 0x00, 0, 0]);
+            (h, true)
+        }
+        "v4-tlv" => {
+            h.extend_from_slice(&[0x21, 0x11, 0, 19, 10, 1, 2, 3, 10, 4, 5, 6, 0x1f, 0x90, 0x01, 0xbb, 0x04, 0, 4, 1, 2, 3, 4]);
+            (h, true)
+        }
+        "unix" => {
+            h.extend_from_slice(&[0x21, 0x31, 0, 216]);
+            let mut a = [0u8; 216];
+            a[..9].copy_from_slice(b"/tmp/src\0");
+            a[108..117].copy_from_slice(b"/tmp/dst\0");
+            h.extend_from_slice(&a);
+            (h, true)
+        }
+        "unspec" => {
+            // PROXY command, AF_UNSPEC, 5 opaque bytes the receiver must skip
+            h.extend_from_slice(&[0x21, 0x00, 0, 5, 1, 2, 3, 4, 5]);
+            (h, true)
+        }
+        "oversized" => {
+            // announces 217 address bytes: 233 in total, over the 232-byte maximum
+            h.extend_from_slice(&[0x21, 0x31, 0, 217]);
+            h.extend_from_slice(&[0u8; 217]);
+            (h, false)
+        }
+        "huge" => {
+            // announces 65535 address bytes: larger than any session buffer
+            h.extend_from_slice(&[0x21, 0x11, 0xff, 0xff]);
+            h.extend_from_slice(&vec![7u8; 65535]);
+            (h, false)
+        }
+        "bad-length" => {
+            // TCP4 needs 12 address bytes, announces 8
+            h.extend_from_slice(&[0x21, 0x11, 0, 8, 10, 1, 2, 3, 10, 4, 5, 6]);
+            (h, false)
+        }
+        "bad-signature" => {
+            h[3] = 0x0b;
+            h.extend_from_slice(&[0x21, 0x11, 0, 12, 10, 1, 2, 3, 10, 4, 5, 6, 0x1f, 0x90, 0x01, 0xbb]);
+            (h, false)
+        }
+        "bad-version" => {
+            h.extend_from_slice(&[0x31, 0x11, 0, 12, 10, 1, 2, 3, 10, 4, 5, 6, 0x1f, 0x90, 0x01, 0xbb]);
+            (h, false)
+        }
+        _ => (vec![], true),
+    }
+}
+
+pub fn run_tcp_case(case: &TcpCase, prefix: Vec<u32>, profile: ChoiceProfile) -> Run {
+    use sozu_command_lib::proto::command::ProxyProtocolConfig;
+    let front = scen::addr(1, 7070);
+    let back = scen::addr(2, 7171);
+    let mode = case.mode;
+    let state = scen::tcp_state(
+        front,
+        back,
+        |l| l.expect_proxy = matches!(mode, Mode::Expect | Mode::Relay),
+        |c| {
+            c.proxy_protocol = match mode {
+                Mode::Plain => None,
+                Mode::Send => Some(ProxyProtocolConfig::SendHeader as i32),
+                Mode::Expect => Some(ProxyProtocolConfig::ExpectHeader as i32),
+                Mode::Relay => Some(ProxyProtocolConfig::RelayHeader as i32),
+            }
+        },
+    );
+    let up = h1::coded_body(3, case.up);
+    let down = h1::coded_body(9, case.down);
+    let (hdr, mut well_formed) = if matches!(mode, Mode::Expect | Mode::Relay) { incoming_header(&case.header) } else { (vec![], true) };
+    if mode == Mode::Relay && case.header == "oversized" {
+        // 233 bytes exceed the 232-byte window of the expect mode only; the relay
+        // mode forwards the header verbatim from the session buffer, and a UNIX
+        // header with a one-byte tail is well formed
+        well_formed = true;
+    }
+    // what the backend must receive before the payload
+    let backend_header_len = match mode {
+        Mode::Plain | Mode::Expect => 0,
+        Mode::Send => 28, // v4 listener / v4 client
+        Mode::Relay => hdr.len(), // relayed verbatim, TLVs included
+    };
+    let mut client = vec![Step::Connect { to: front, from: None }];
+    let cuts = |n: usize| -> Vec<usize> {
+        if n <= 240 { (1..=n).collect() } else { vec![1, 15, 16, 17, 28, 232, 233, 4096, 16393, n / 2, n - 1, n] }
+    };
+    if !hdr.is_empty() {
+        if case.coalesced {
+            let mut first = hdr.clone();
+            first.extend_from_slice(&up);
+            // every byte position of the header is a candidate cut
+            client.push(Step::Send { splits: cuts(hdr.len()).into_iter().filter(|c| *c < first.len()).collect(), bytes: first });
+        } else {
+            client.push(Step::Send { splits: cuts(hdr.len()).into_iter().filter(|c| *c < hdr.len()).collect(), bytes: hdr.clone() });
+            client.push(Step::Send { splits: vec![1, up.len() / 2], bytes: up.clone() });
+        }
+    } else {
+        client.push(Step::Send { splits: vec![1, up.len() / 2, up.len().saturating_sub(1)], bytes: up.clone() });
+    }
+    let end = case.end;
+    let down_len = if end == Ending::ClientClose { 0 } else { case.down };
+    match end {
+        Ending::Open => client.extend([Step::ExpectBytes(down_len), Step::Done]),
+        Ending::BackendClose => client.extend([Step::ExpectBytes(down_len), Step::ExpectEof, Step::Done]),
+        Ending::ClientClose => client.extend([Step::Close, Step::Done]),
+        Ending::ClientHalfClose => client.extend([Step::HalfClose, Step::ExpectBytes(down_len), Step::ExpectEof, Step::Done]),
+    }
+    let mut backend = vec![Step::Accept, Step::ExpectBytes(backend_header_len + case.up)];
+    match end {
+        Ending::Open => backend.extend([Step::Send { splits: vec![1, down.len() / 2], bytes: down.clone() }, Step::Done]),
+        Ending::BackendClose => backend.extend([Step::Send { splits: vec![1, down.len() / 2], bytes: down.clone() }, Step::Close, Step::Done]),
+        Ending::ClientClose => backend.extend([Step::ExpectEof, Step::Done]),
+        Ending::ClientHalfClose => backend.extend([Step::ExpectEof, Step::Send { splits: vec![1, down.len() / 2], bytes: down.clone() }, Step::Close, Step::Done]),
+    }
+    let backend = Peer::server("backend", back, backend);
+    let client = Peer::client("client", client);
+    let bs = case.buffer_size;
+    let ws = WorkerSetup { config: worker::server_config(|c| c.buffer_size = bs), initial: state };
+    let (mut exec, create_err) = worker::run_worker(ws, vec![backend, client], vec![MainStep::AwaitPeers], profile, prefix, 200);
+    if let Some(e) = create_err {
+        crate::common::machinery_error(&format!("worker creation failed: {e}"));
+    }
+    let mut violations: Vec<(String, String)> = vec![];
+    let key_mode = if matches!(end, Ending::ClientClose | Ending::ClientHalfClose) { "any".to_owned() } else { format!("{mode:?}") };
+    let mut flag = |k: String, d: String| violations.push((format!("C18|tcp|{end:?}|{key_mode}|{k}"), d));
+    if let Some(p) = &exec.subject_panic {
+        flag("worker-panic".into(), format!("worker panicked: {p}"));
+    }
+    let run_end = exec.end.clone();
+    let sc = worker::scenario_of(&mut exec);
+    let b = &sc.peers[0];
+    let c = &sc.peers[1];
+    let client_local = c.conn.local_addr();
+    let brx = &b.conn.rx;
+    let mut obs = format!("end={run_end:?} backend_rx={} client_rx={} client_eof={} backend_eof={}", brx.len(), c.conn.rx.len(), c.conn.eof || c.conn.reset, b.conn.eof || b.conn.reset);
+    if !well_formed {
+        // malformed header: the session must be closed and nothing forwarded
+        if !brx.is_empty() {
+            flag(format!("forwarded-after-malformed-header:{}", case.header), format!("the backend received {} bytes although the PROXY header was malformed", brx.len()));
+        }
+        if !(c.conn.eof || c.conn.reset) {
+            flag(format!("not-closed-after-malformed-header:{}", case.header), "the client connection was left open after a malformed PROXY header".into());
+        }
+        return Run { trace: exec.trace, observation: obs, violations, diverged: exec.diverged };
+    }
+    // ---- upstream: [exactly one well-formed header] + exactly the payload
+    if brx.len() < backend_header_len {
+        flag("upstream:header-missing".into(), format!("backend received {} bytes, expected a {backend_header_len}-byte PROXY header first", brx.len()));
+    } else {
+        let (head, payload) = brx.split_at(backend_header_len);
+        if backend_header_len > 0 {
+            match parse_v2_header(head) {
+                Ok((rest, h)) if rest.is_empty() => {
+                    let (src, dst) = (h.addr.source(), h.addr.destination());
+                    obs.push_str(&format!(" hdr_family={:#x}", h.family));
+                    match mode {
+                        Mode::Send => {
+                            if src.map(|a| a.ip()) != client_local.map(|a| a.ip()) || src.map(|a| a.port()) != client_local.map(|a| a.port()) {
+                                flag("upstream:header-wrong-source".into(), format!("PROXY header names source {src:?}, the client is {client_local:?}"));
+                            }
+                            if dst != Some(front) {
+                                flag("upstream:header-wrong-destination".into(), format!("PROXY header names destination {dst:?}, the listener is {front}"));
+                            }
+                        }
+                        Mode::Relay => {
+                            if head != &hdr[..] {
+                                flag("upstream:relayed-header-differs".into(), format!("relayed header {:02x?} differs from the incoming one {:02x?}", head, hdr));
+                            }
+                        }
+                        _ => {}
+                    }
+                }
+                other => flag("upstream:header-malformed".into(), format!("the first {backend_header_len} bytes at the backend are not one PROXY v2 header: {:?}", other.map(|(r, _)| r.len()))),
+            }
+        }
+        if payload != &up[..] {
+            let class = if payload.len() < up.len() && up.starts_with(payload) {
+                "truncated"
+            } else if payload.len() > up.len() {
+                "extra-bytes"
+            } else if payload.windows(12).any(|w| w == &SIG[..]) {
+                "second-header"
+            } else {
+                "corrupted"
+            };
+            flag(format!("upstream:payload-{class}"), format!("backend payload is {} bytes, client sent {} (header {}, coalesced={})", payload.len(), up.len(), case.header, case.coalesced));
+        }
+    }
+    if c.conn.rx != down[..down_len] {
+        let class = if c.conn.rx.len() < down.len() && down.starts_with(&c.conn.rx) { "truncated" } else { "corrupted" };
+        flag(format!("downstream:payload-{class}"), format!("client received {} bytes, backend sent {}", c.conn.rx.len(), down_len));
+    }
+    if matches!(end, Ending::ClientClose | Ending::ClientHalfClose) && !b.conn.eof {
+        flag("upstream:eof-not-forwarded".into(), "the client ended its stream after its payload but the backend never saw end-of-stream".into());
+    }
+    if matches!(end, Ending::BackendClose | Ending::ClientHalfClose) && !(c.conn.eof || c.conn.reset) {
+        flag("downstream:eof-not-forwarded".into(), "the backend closed after its payload but the client never saw end-of-stream".into());
+    }
+    if let Some(t) = c.conn.last_rx_ns {
+        if (t - VIRTUAL_EPOCH_NS) / 1_000_000 >= 1000 {
+            flag("completed-only-after-timer".into(), format!("the last byte reached the client after {} virtual ms", (t - VIRTUAL_EPOCH_NS) / 1_000_000));
+        }
+    }
+    drop(flag);
+    if run_end != End::Finished && violations.is_empty() {
+        violations.push((format!("C18|tcp|{end:?}|{key_mode}|worker-{}", format!("{run_end:?}").to_lowercase()), format!("run ended {run_end:?} although every expected byte was delivered")));
+    }
+    Run { trace: exec.trace, observation: obs, violations, diverged: exec.diverged }
+}
+
+fn tcp_cases(tier: Tier) -> Vec<TcpCase> {
+    let mut v = vec![];
+    let sizes: &[usize] = if tier == Tier::Quick { &[1, 100, 16384, 40000] } else { &[1, 2, 100, 4095, 4096, 4097, 16383, 16384, 16385, 16393, 16394, 40000, 131073] };
+    let ends = [Ending::Open, Ending::BackendClose, Ending::ClientClose, Ending::ClientHalfClose];
+    for &bs in &[4096u64, 16393] {
+        for &n in sizes {
+            for end in ends {
+                v.push(TcpCase { mode: Mode::Plain, up: n, down: 7, header: String::new(), coalesced: false, end, buffer_size: bs });
+                if end != Ending::ClientClose {
+                    v.push(TcpCase { mode: Mode::Plain, up: 7, down: n, header: String::new(), coalesced: false, end, buffer_size: bs });
+                }
+            }
+        }
+        for end in ends {
+            v.push(TcpCase { mode: Mode::Send, up: 100, down: 50, header: String::new(), coalesced: false, end, buffer_size: bs });
+            v.push(TcpCase { mode: Mode::Send, up: 20000, down: 20000, header: String::new(), coalesced: false, end, buffer_size: bs });
+        }
+        for mode in [Mode::Expect, Mode::Relay] {
+            for header in ["v4", "v6", "local", "v4-tlv", "unix", "unspec", "oversized", "huge", "bad-signature", "bad-version", "bad-length"] {
+                for coalesced in [false, true] {
+                    v.push(TcpCase { mode, up: 64, down: 32, header: header.into(), coalesced, end: Ending::Open, buffer_size: bs });
+                }
+            }
+            for end in [Ending::BackendClose, Ending::ClientClose, Ending::ClientHalfClose] {
+                v.push(TcpCase { mode, up: 5000, down: 5000, header: "v4".into(), coalesced: true, end, buffer_size: bs });
+            }
+        }
+    }
+    v
+}
+
+fn tcp_profile() -> ChoiceProfile {
+    ChoiceProfile { read_faults: vec![FdClass::Front, FdClass::Back], write_faults: vec![FdClass::Front, FdClass::Back], max_points_per_class: 5, event_order: true }
+}
+
+pub fn run_item(tier: Tier, item: usize) -> ItemResult {
+    let all = tcp_cases(tier);
+    let case = all[item].clone();
+    let mut violations = vec![];
+    let c2 = case.clone();
+    let stats = explore::search(
+        if tier == Tier::Quick { 1 } else { 2 },
+        if tier == Tier::Quick { 300 } else { 4000 },
+        |prefix| {
+            let c = c2.clone();
+            let p = prefix.to_vec();
+            match worker::isolated(move || run_tcp_case(&c, p.clone(), tcp_profile())) {
+                Ok(r) => r,
+                Err(status) => {
+                    let mut r = super::c01::crashed_run(prefix, &status);
+                    for v in r.violations.iter_mut() {
+                        v.0 = v.0.replace("C01|any", &format!("C18|tcp|{:?}", c2.mode));
+                    }
+                    r
+                }
+            }
+        },
+        |vector, key, desc| {
+            let weight = vector.iter().filter(|c| **c != 0).count() as u64 * 1000 + (case.up + case.down) as u64 / 100;
+            violations.push((key.to_owned(), desc.to_owned(), json!({"part": "b", "case": case, "choices": vector}), weight));
+        },
+    );
+    let mut counters = BTreeMap::new();
+    counters.insert("sim_executions".to_owned(), stats.executions);
+    ItemResult { item, label: format!("{case:?}"), stats, violations, counters, sample: json!({"case": case}) }
+}
+
 pub fn run(ctx: &Ctx) -> Coverage {
+    if std::env::var("VERIF_SHARD").is_ok() {
+        // shard child: only the SIM part is sharded
+        let tier = ctx.tier();
+        let n = tcp_cases(tier).len();
+        explore::run_sharded(ctx, n, "c18b", |i| run_item(tier, i));
+        unreachable!();
+    }
     let mut cov = Coverage::aggregate();
     cov.absorb("a-proxy-v2-codec", run_a(ctx));
+    let tier = ctx.tier();
+    let n = tcp_cases(tier).len();
+    let results = explore::run_sharded(ctx, n, "c18b", |i| run_item(tier, i));
+    cov.absorb("b-tcp-relay", super::c01::summarize(ctx, &results, "TCP sessions through an unmodified worker: plain relay in both directions (sizes straddling buffer boundaries, with and without client half-close), PROXY-protocol send mode, and expect / relay modes with incoming v2 headers {TCP4, TCP6, LOCAL, TCP4+TLV, bad signature, bad version} either separate from or coalesced with the first payload bytes and cut at every byte position; each with every schedule of at most d deviations (short / would-block reads and writes on both sockets, readiness order). Oracle: backend stream = [exactly one well-formed header with the true or relayed addresses] + exactly the client payload; client stream = exactly the backend payload; end-of-stream forwarded after all bytes; malformed header: closed, nothing forwarded; nothing completes only after a timer"));
     cov
 }
 
-pub fn replay(ctx: &Ctx, _case: &Value) -> Coverage {
+pub fn replay(ctx: &Ctx, case: &Value) -> Coverage {
+    if case["part"] == "b" {
+        let c: TcpCase = serde_json::from_value(case["case"].clone()).unwrap_or_else(|e| crate::common::machinery_error(&format!("bad replay case: {e}")));
+        let choices: Vec<u32> = serde_json::from_value(case["choices"].clone()).unwrap_or_default();
+        let r = worker::isolated(move || run_tcp_case(&c, choices, tcp_profile())).unwrap_or_else(|s| super::c01::crashed_run(&[], &s));
+        for (k, d) in r.violations {
+            ctx.violation(k, d, case.clone());
+        }
+        return Coverage { states: 1, transitions: 1, evaluations: 1, distinct_nontrivial: 1, distinct_outcomes: 1, rule: "replay".into(), ..Default::default() };
+    }
     run(ctx)
+}
+
+pub fn debug(args: &crate::common::Args) {
+    let all = tcp_cases(args.tier);
+    let item: usize = args.extra.get("item").and_then(|s| s.parse().ok()).unwrap_or(0);
+    let mut choices: Vec<u32> = args.extra.get("choices").map(|s| s.split(',').filter_map(|x| x.parse().ok()).collect()).unwrap_or_default();
+    let mut c = all[item].clone();
+    if let Some(f) = args.extra.get("file") {
+        let j = crate::common::load_replay(&std::path::PathBuf::from(f));
+        c = serde_json::from_value(j["case"]["case"].clone()).unwrap();
+        choices = serde_json::from_value(j["case"]["choices"].clone()).unwrap();
+    }
+    println!("{} cases; {:?}", all.len(), c);
+    let r = worker::isolated(move || run_tcp_case(&c, choices, tcp_profile())).unwrap();
+    println!("obs={}", r.observation);
+    println!("trace={:?}", r.trace.iter().map(|p| format!("{}:{}/{}", p.kind, p.chosen, p.alternatives)).collect::<Vec<_>>());
+    println!("violations={:#?}", r.violations);
 }
